@@ -33,6 +33,14 @@ Definition spec_host (k : epkind) (names : list name) (dflt : name) (wl_return :
               else REndpoint k dflt
        end.
 
+(* Set-endpoint-mark dispatch (IPVS mode): a known workload or host endpoint interface is handed to its own
+   cali-sm-<iface> chain; an unknown interface matching a workload prefix is denied ("Unknown endpoint");
+   anything else returns carrying the non-Calico endpoint mark. *)
+Definition spec_setmark (reject : bool) (wlpfx : list name) (wl hep : list name) (mark mask : N) (i : name) : result :=
+  if mem i wl || mem i hep then REndpoint KSetMark i
+  else if existsb (fun p => is_prefix p i) wlpfx then deny_result reject
+  else RReturnMarked mark mask.
+
 (* Domain of the property: real interface names are non-empty and never end in the dataplane's
    wildcard byte (the v3 validator only admits [a-zA-Z0-9_.-]{1,15}). *)
 Fixpoint name_plain (wc : N) (n : name) : bool :=   (* non-empty and the last byte is not wc *)
@@ -43,7 +51,8 @@ Fixpoint name_plain (wc : N) (n : name) : bool :=   (* non-empty and the last by
 Definition names_ok (wc : N) (names : list name) : bool := forallb (name_plain wc) names.
 
 (* ---- one correspondence case, as written by the Go harness ---- *)
-Inductive ckind := CWorkload | CHost (dflt : name) (m : hmode).
+Inductive ckind := CWorkload | CHost (dflt : name) (m : hmode)
+  | CSetMark (hep : list name) (mark mask : N).  (* EndpointMarkDispatchChains: c_names = workload names *)
 
 Record case := { c_cfg : cfg;
                  c_kind : ckind;
@@ -58,6 +67,7 @@ Definition roots (k : ckind) : list epkind :=
   | CHost _ HTo => [KHostTo]
   | CHost _ (HBoth false) => [KHostFrom; KHostTo]
   | CHost _ (HBoth true) => [KHostFrom; KHostTo; KHostFromFwd; KHostToFwd]
+  | CSetMark _ _ _ => [KSetMark]
   end.
 
 Definition mk_packet (k : epkind) (probe decoy : name) : packet :=
@@ -73,6 +83,7 @@ Definition expected (c : cfg) (ck : ckind) (names : list name) (k : epkind) (i :
       spec_host k names dflt
                 (match k with KHostTo => negb (mode_aof m) | _ => false end)
                 (cf_wlpfx c) i
+  | CSetMark hep mark mask => spec_setmark (cf_reject c) (cf_wlpfx c) names hep mark mask i
   end.
 
 Definition ok_ruleset (c : cfg) (ck : ckind) (names : list name) (probes : list (name * name))
@@ -87,6 +98,7 @@ Definition model_of (c : case) : option ruleset :=
   match c_kind c with
   | CWorkload => workload_dispatch (c_cfg c) (c_names c)
   | CHost dflt m => host_dispatch (c_cfg c) (c_names c) dflt m
+  | CSetMark hep mark mask => set_mark_dispatch (c_cfg c) (c_names c) hep mark mask
   end.
 
 Definition is_empty (n : name) : bool := match n with [] => true | _ => false end.
@@ -95,9 +107,10 @@ Definition is_empty (n : name) : bool := match n with [] => true | _ => false en
    wildcard byte) nothing is demanded except that a panic is only acceptable for an empty name. *)
 Definition ok_case (c : case) : bool :=
   match c_impl c with
-  | None => existsb is_empty (c_names c)
+  | None => existsb is_empty (c_names c ++ match c_kind c with CSetMark hep _ _ => hep | _ => [] end)
   | Some rs =>
       if names_ok (sem_wildcard (cf_nft (c_cfg c))) (c_names c)
+         && names_ok (sem_wildcard (cf_nft (c_cfg c))) (match c_kind c with CSetMark hep _ _ => hep | _ => [] end)
       then ok_ruleset (c_cfg c) (c_kind c) (c_names c) (c_probes c) rs
       else true
   end.
